@@ -33,12 +33,12 @@ def summary(run):
             ex[k] = ex.get(k, 0) + 1
         s["executed"] = ex
         if led is not None and led.enabled and not led.stopped:
-            s["published"] = sorted([list(map(str, p[:4])) for p in led.pubs if not p[4]])
+            s["pubs_all"] = [list(map(str, p[:4])) + [bool(p[4])] for p in led.pubs]
             racy = getattr(led, "racy_out", None)
             out = run.c.get_workflow_output() or {}
             if racy is not None:
-                s["output"] = {name: out.get(name) for name, spec, lang in run.model.output
-                               if spec[0] == "ref" and spec[1] not in racy}
+                s["racy"] = set(racy)
+                s["output_all"] = {name: (spec[1], out.get(name)) for name, spec, lang in run.model.output if spec[0] == "ref"}
     return s
 
 
@@ -53,6 +53,19 @@ def relate_orders(out, job, m, seed, res, exhaustive):
     tags = set()
     for _, run, _ in sums:
         tags |= run.tags
+    # whether a variable is decided by arrival order can itself depend on the order (a race at an inner join whose
+    # loser is overwritten downstream in one order only): racy in ANY order of the scenario = not compared in any
+    racy_vars, racy_pubs = set(), set()
+    for _, _, s in sums:
+        racy_vars |= s.get("racy", set())
+        racy_pubs |= {tuple(p[:3]) for p in s.get("pubs_all", []) if p[4]}
+    C["racy_output_vars_excluded"] = C.get("racy_output_vars_excluded", 0) + len(racy_vars)
+    for _, _, s in sums:
+        if "pubs_all" in s:
+            s["published"] = sorted(p[:4] for p in s["pubs_all"] if tuple(p[:3]) not in racy_pubs)
+        if "output_all" in s:
+            s["output"] = {n: v for n, (var, v) in s["output_all"].items() if var not in racy_vars}
+            C["output_vars_compared"] = C.get("output_vars_compared", 0) + len(s["output"])
     for choices, run, s in sums[1:]:
         diffs = []
         if s["status"] != ref["status"]:
